@@ -368,3 +368,37 @@ def field_writes(repo, f):
                 elif self_attr(x, selfname):
                     out.append((x.attr, s))
     return out
+
+
+def called_from_public(repo, cname):
+    """Qualified names of the methods that can actually run on an instance of ``cname``: the public
+    (non-underscore or dunder) methods that do not unconditionally raise, plus everything they reach
+    through ``self.<m>`` / property accesses / ``super().<m>``."""
+    meths = reachable_methods(repo, cname)
+    work = []
+    for name, f in meths.items():
+        base = name.split(".")[0]
+        private = base.startswith("_") and not (base.startswith("__") and base.endswith("__"))
+        if not private and not unconditional_raise(f):
+            work.append(f)
+    seen = {}
+    while work:
+        f = work.pop()
+        if f.qual in seen:
+            continue
+        seen[f.qual] = f
+        selfname = FieldFlow._selfname(f)
+        for n in ast.walk(f.node):
+            if self_attr(n, selfname):
+                g = repo.resolve_method(cname, n.attr)
+                if g is not None:
+                    work.append(g)
+                s = repo.resolve_setter(cname, n.attr)
+                if s is not None and isinstance(n.ctx, ast.Store):
+                    work.append(s)
+            if isinstance(n, ast.Call) and isinstance(n.func, ast.Attribute) and isinstance(n.func.value, ast.Call) \
+                    and isinstance(n.func.value.func, ast.Name) and n.func.value.func.id == "super":
+                g = repo.resolve_method(cname, n.func.attr, start_after=f.cls_ctx())
+                if g is not None:
+                    work.append(g)
+    return seen
